@@ -333,6 +333,17 @@ func execC17(t *testing.T, c C17Case) *Verdict {
 				err = fmt.Errorf("%w: %s", err, strings.Join(reported, "; "))
 			}
 			want := model.tryImport(op.File)
+			if !want {
+				// A failed import may or may not have imported some of the file's
+				// dependencies first (each is an import of another file in its own
+				// right): whatever dependency is visibly there, and could be there,
+				// is taken over into the model.
+				for _, d := range f.deps {
+					if dep := symPool[d]; !model.committed[d] && len(dep.symbols) > 0 && syms.Lookup(protoreflect.FullName(dep.symbols[0])) != nil {
+						model.tryImport(d)
+					}
+				}
+			}
 			desc := fmt.Sprintf("op %d Import(%s) [err=%v]", i, op.File, err)
 			if err != nil {
 				failed++
